@@ -37,7 +37,7 @@ var (
 	xssSchemes  = []string{"javascript:alert(1)", "vbscript:x", "data:text/html,x", "view-source:x", "JaVaScRiPt:x", "&#106;avascript:x", "&#x6A;avascript:x", "&#X76iew-source:x", " \tjavascript:x", "\x01javascript:x", "jav&#x0A;ascript:x", "java\x00script:x", "&#0000106avascript:x", "\x7fdata:x", "\xa0vbscript:x", "VIEW-SOURCE:x", "d&#97;ta:x", "&#9;javascript:x",
 		// long runs of ignorable characters (decode-step / buffer bounds)
 		"j" + strings.Repeat("\x00", 40) + "avascript:x", strings.Repeat("&#9;", 40) + "javascript:x", "java" + strings.Repeat("&#10;", 70) + "script:x", "vb" + strings.Repeat("&#0;", 33) + "script:x", "d" + strings.Repeat("\x00", 29) + "ata:x"}
-	xssMarkup   = []string{"<!doctype html>", "<!DOCTYPE x", "<!DocType", "<!ENTITY x>", "<!entity", "<![if IE]>", "<!--[if gte IE 4]>", "<!--[IF x]>", "<?import x>", "<?IMPORT x", "<?xml version>", "<?XML x", "<?xml-stylesheet href=x?>", "<!--`-->", "<%`%>", "<!`>", "<?`",
+	xssMarkup = []string{"<!doctype html>", "<!DOCTYPE x", "<!DocType", "<!ENTITY x>", "<!entity", "<![if IE]>", "<!--[if gte IE 4]>", "<!--[IF x]>", "<?import x>", "<?IMPORT x", "<?xml version>", "<?XML x", "<?xml-stylesheet href=x?>", "<!--`-->", "<%`%>", "<!`>", "<?`",
 		"<?xml >", "<?XmL >", "<![if]>", "<![iF ]>", "<%xml %>", "<!--[if]-->", "<?import>", "<!ENTITY>", "<?xml x", "<![if x"}
 )
 
